@@ -424,3 +424,179 @@ def terminals_alphabet(g):
     for r in g["rules"]:
         walk(r["expr"], f)
     return sorted(bs)
+
+
+# ----------------------------------------------------------------- printing with positions + expected AST dump (C03/C20)
+
+class PosPrinter:
+    """Prints a gspec grammar and records, for every node, the offset of its
+    first token, so that the AST the text denotes can be predicted including
+    positions."""
+
+    def __init__(self, sep=" ", ruleop="<-", rule_end="\n\n"):
+        self.buf = []
+        self.n = 0
+        self.sep, self.ruleop, self.rule_end = sep, ruleop, rule_end
+        self.sep_offs = []  # offsets of the layout between two tokens inside expressions
+
+    def ws(self, extra_before="", extra_after=""):
+        """layout between two tokens of an expression (a `__` of the grammar)"""
+        self.w(extra_before)
+        self.sep_offs.append(self.n)
+        self.w(self.sep)
+        self.w(extra_after)
+
+    def w(self, s):
+        self.buf.append(s)
+        self.n += len(s.encode("utf-8"))
+
+    def text(self):
+        return "".join(self.buf)
+
+    def emit(self, e, ctx):
+        if level(e) < ctx:
+            self.w("(")
+            self.ws()
+            self.emit1(e)
+            self.ws()
+            self.w(")")
+        else:
+            self.emit1(e)
+
+    def code(self, e, intro=""):
+        self.w(intro)
+        e["_codeoff"] = self.n
+        self.w(block_code(e))
+
+    def emit1(self, e):
+        k = e["k"]
+        if k not in ("recover",):
+            e["_off"] = self.n
+        if k == "lit": self.w(go_quote(e["v"]) + ("i" if e["i"] else ""))
+        elif k == "cls": self.w(cls_raw(e))
+        elif k == "any": self.w(".")
+        elif k == "ref": self.w(e["name"])
+        elif k == "seq":
+            for i, x in enumerate(e["kids"]):
+                if i: self.ws()
+                self.emit(x, 4)
+        elif k == "choice":
+            for i, x in enumerate(e["kids"]):
+                if i:
+                    self.ws()
+                    self.w("/")
+                    self.ws()
+                self.emit(x, 2)
+        elif k in ("star", "plus", "opt"):
+            self.emit(e["kids"][0], 7)
+            self.w({"star": "*", "plus": "+", "opt": "?"}[k])
+        elif k in ("and", "not"):
+            self.w("&" if k == "and" else "!")
+            self.emit(e["kids"][0], 6)
+        elif k == "label":
+            self.w(e["name"] + ":")
+            self.emit(e["kids"][0], 5)
+        elif k == "act":
+            self.emit(e["kids"][0], 3)
+            self.ws()
+            self.code(e)
+        elif k == "andcode": self.code(e, "&")
+        elif k == "notcode": self.code(e, "!")
+        elif k == "state": self.code(e, "#")
+        elif k == "throw": self.w("%{" + e["name"] + "}")
+        elif k == "recover":
+            e["_off"] = self.n
+            self.emit(e["kids"][0], 0 if e["kids"][0]["k"] == "recover" else 1)
+            self.ws()
+            self.w("//{")
+            for i, l in enumerate(e["labels"]):
+                if i:
+                    self.w(",")
+                    self.ws()
+                self.w(l)
+            self.w("}")
+            self.ws()
+            self.emit(e["kids"][1], 1)
+        else:
+            raise ValueError(k)
+
+
+def print_grammar_pos(g, pkg, sep=" ", ruleop="<-", rule_end="\n\n", with_init=True):
+    """Returns (text, g) with _off annotations; the initializer is a minimal package clause."""
+    assign_args(g)
+    p = PosPrinter(sep, ruleop, rule_end)
+    if with_init:
+        g["_initoff"] = p.n
+        g["_init"] = "{\npackage " + pkg + "\n}"
+        p.w(g["_init"])
+        p.w("\n\n")
+    else:
+        g["_init"] = None
+    for r in g["rules"]:
+        r["_off"] = p.n
+        p.w(r["name"])
+        if r.get("display"):
+            p.w(" " + go_quote(r["display"]))
+        p.w(sep + ruleop + sep)
+        p.emit(r["expr"], 0)
+        p.w(rule_end)
+    g["_sep_offs"] = list(p.sep_offs)
+    return p.text(), g
+
+
+def linecol(text_bytes, off):
+    """pigeon's position of byte offset off (ASCII-only layouts: col counts bytes of ASCII; general: runes)."""
+    before = text_bytes[:off]
+    line = 1 + before.count(b"\n")
+    last = before.rfind(b"\n")
+    col = len(before[last + 1:].decode("utf-8", "replace")) + 1
+    if off < len(text_bytes) and text_bytes[off:off + 1] == b"\n":
+        line, col = line + 1, 0
+    return line, col
+
+
+def go_any(v):
+    if v is None: return "nil"
+    if isinstance(v, bool): return "true" if v else "false"
+    if isinstance(v, int): return str(v)
+    if isinstance(v, str): return go_str(v)
+    if isinstance(v, tuple) and v[0] == "rune": return "rune(0x%x)" % v[1]
+    if isinstance(v, list): return "[]any{" + ", ".join(go_any(x) for x in v) + "}"
+    raise ValueError(v)
+
+
+def expected_dump(g, text, with_pos=True):
+    """The AST the printed text denotes, in the format of harness/astdump_main.go."""
+    tb = text.encode("utf-8")
+    def pos(off):
+        if not with_pos: return [0, 0, 0]
+        l, c = linecol(tb, off)
+        return [l, c, off]
+    def code(e):
+        return ["code"] + pos(e["_codeoff"]) + [block_code(e)]
+    def ex(e):
+        k = e["k"]
+        p = pos(e["_off"])
+        if k == "lit": return ["lit"] + p + [e["v"], e["i"]]
+        if k == "cls":
+            return ["cls"] + p + [cls_raw(e), [("rune", ord(c)) for c in e["chars"]],
+                                  [("rune", ord(c)) for lo, hi in e["ranges"] for c in (lo, hi)], list(e["classes"]), e["inv"], e["i"]]
+        if k == "any": return ["any"] + p
+        if k in ("seq", "choice"): return [k] + p + [ex(x) for x in e["kids"]]
+        if k in ("star", "plus", "opt", "and", "not"): return [k] + p + [ex(e["kids"][0])]
+        if k == "label": return ["label"] + p + [e["name"], ex(e["kids"][0])]
+        if k == "ref": return ["ref"] + p + [e["name"]]
+        if k == "act": return ["act"] + p + [code(e), ex(e["kids"][0])]
+        if k in ("andcode", "notcode", "state"): return [k] + p + [code(e)]
+        if k == "throw": return ["throw"] + p + [e["name"]]
+        if k == "recover": return ["recover"] + p + [list(e["labels"]), ex(e["kids"][0]), ex(e["kids"][1])]
+        raise ValueError(k)
+    out = ["G"] + pos(0)
+    if g.get("_init"):
+        out.append(["code"] + pos(g["_initoff"]) + [g["_init"]])
+    else:
+        out.append(None)
+    for r in g["rules"]:
+        disp = go_quote(r["display"]) if r.get("display") else ""
+        out.append(["R"] + pos(r["_off"]) + [r["name"], disp, ex(r["expr"])])
+    return out
